@@ -466,7 +466,8 @@ fn run(ctx: &Ctx, src: &mut Src) -> WorldResult {
     let max_ops = if ctx.tier == Tier::Quick { 10 } else { 24 };
     let ops = 1 + src.draw(max_ops);
     let mut decoder = TTYEventDecoder::new();
-    let mut tainted = false; // a sink error happened: pairing of that call is not demanded
+    // (until round 15 a sink error relaxed the pairing oracles for the rest of the run)
+    let tainted = false;
     for step in 0..ops {
         let op = src.draw(10);
         let idx = src.draw(pool.len() as u32) as usize;
@@ -547,7 +548,10 @@ fn run(ctx: &Ctx, src: &mut Src) -> WorldResult {
                 // whatever reached the terminal before the failure is still parsed, the rest is lost
                 let _ = peer.feed(&sink.buf);
                 peer.abort();
-                tainted = true;
+                // (no run-wide relaxation: a failed call places or removes nothing - its last
+                // command is cut short and discarded by the terminal - and an image counts as
+                // transmitted exactly when its last chunk went out whole, so every oracle below
+                // keeps its force for this call and for the rest of the history)
                 peer.replies.clear();
                 break;
             }
